@@ -81,6 +81,7 @@ var riskyKnobs = []string{"rawShift", "clz", "privInit", "swBreak", "absU", "vec
 
 func setKnob(o *wgenOpts, k string) {
 	o.negInit, o.vecInit, o.rawShift, o.clz, o.privInit, o.swBreak, o.absU, o.shadowUse = false, false, false, false, false, false, false, false
+	o.scalarSel, o.contLet = true, true
 	o.fround = true // SPIR-V: GLSL.std.450 RoundEven since fix 487639f
 	switch k {
 	case "fround":
